@@ -39,7 +39,15 @@ class RemoveUnusedImports(SimpleCodemod):
         tree.visit(gather_unused_visitor)
         # filter the gathered imports by line excludes/includes
         filtered_unused_imports = set()
-        for import_alias, importt in gather_unused_visitor.unused_imports:
+        # the gathered set is ordered by object identity: report the changes in source order
+        unused_imports = sorted(
+            gather_unused_visitor.unused_imports,
+            key=lambda pair: (
+                (start := self.get_metadata(PositionProvider, pair[0]).start).line,
+                start.column,
+            ),
+        )
+        for import_alias, importt in unused_imports:
             pos = self.get_metadata(PositionProvider, import_alias)
             if self.filter_by_path_includes_or_excludes(pos):
                 if not is_disabled_by_annotations(
